@@ -150,6 +150,8 @@ type c18Obs struct {
 	Grew    bool
 	Frag    string
 	Globals map[string]string
+	Halt    int // vm.halt after the piece (-1: no VM yet)
+	Loaded  int // number of loaded code objects (main code + bound functions)
 }
 
 // c18Inspect never panics (a mutated tree may leave nil elements inside containers).
@@ -218,16 +220,58 @@ func c18FragText(c *compiler.Code, from, to int) string {
 
 // c18Incremental feeds the pieces the way the REPL's evaluator does.
 func (env *c18Env) incremental(pieces []string, names []string, globalsEvery bool) []*c18Obs {
-	ctx, cancel := context.WithTimeout(context.Background(), 8*time.Second)
+	return env.incrementalCtx(pieces, names, globalsEvery, "")
+}
+
+// incrementalCtx: ctxs gives every piece its own context (one letter per piece, "" = one 8 s deadline for the
+// whole history as before): b context.Background(); c cancellable, cancelled only after the history; d cancelled
+// by the piece itself (printing c18CancelMarker cancels it: everything before the marker has run, the piece then
+// spins until the VM notices); D cancelled before the run starts; e a 25 ms deadline (for pieces that only spin).
+func (env *c18Env) incrementalCtx(pieces []string, names []string, globalsEvery bool, ctxs string) []*c18Obs {
+	base, cancel := context.WithTimeout(context.Background(), 8*time.Second)
 	defer cancel()
 	buf := &bytes.Buffer{}
-	vos := ros.NewVirtualOS(ctx, ros.WithStdout(&memFile{buf: buf}))
-	ctx = ros.WithOS(ctx, vos)
+	wr := &c18Out{buf: buf}
+	vos := ros.NewVirtualOS(base, ros.WithStdout(wr))
+	ctx := ros.WithOS(base, vos)
+	pctx := ctx
+	var cancels []context.CancelFunc
+	defer func() {
+		for _, f := range cancels {
+			f()
+		}
+	}()
 	var c *compiler.Compiler
 	var v *vm.VirtualMachine
 	out := make([]*c18Obs, 0, len(pieces))
 	for i, src := range pieces {
 		o := &c18Obs{}
+		if ctxs != "" {
+			wr.onMarker = nil
+			switch ctxs[i] {
+			case 'b':
+				ctx = ros.WithOS(context.Background(), vos)
+			case 'c':
+				cc, cf := context.WithCancel(context.Background())
+				cancels = append(cancels, cf)
+				ctx = ros.WithOS(cc, vos)
+			case 'd', 'D':
+				cc, cf := context.WithCancel(context.Background())
+				cancels = append(cancels, cf)
+				tm := time.AfterFunc(6*time.Second, cf) // safety net only: never a verdict
+				cancels = append(cancels, func() { tm.Stop() })
+				if ctxs[i] == 'D' {
+					cf()
+				} else {
+					wr.onMarker = cf
+				}
+				ctx = ros.WithOS(cc, vos)
+			case 'e':
+				cc, cf := context.WithTimeout(context.Background(), 25*time.Millisecond)
+				cancels = append(cancels, cf)
+				ctx = ros.WithOS(cc, vos)
+			}
+		}
 		func() {
 			defer func() {
 				if r := recover(); r != nil {
@@ -243,7 +287,7 @@ func (env *c18Env) incremental(pieces []string, names []string, globalsEvery boo
 				}
 			}
 			before := c.Code().InstructionCount()
-			prog, err := rparser.Parse(ctx, src)
+			prog, err := rparser.Parse(pctx, src) // the piece's own context is the context of its RUN
 			if err != nil {
 				o.Class, o.Err = "parse", err.Error()
 				return
@@ -257,7 +301,12 @@ func (env *c18Env) incremental(pieces []string, names []string, globalsEvery boo
 			if v == nil {
 				v = vm.New(code, env.cfg.VMOpts()...)
 			}
-			if err := v.Run(ctx); err != nil {
+			if err := c18RunGuarded(v, ctx, ctxs != "" && ctxs[i] == 'b'); err != nil {
+				if err == errC18Hang {
+					o.Class, o.Err = "hang", "the run did not end within 8 s under context.Background(); the VM is abandoned"
+					v = nil
+					return
+				}
 				if env.setsIP {
 					v.SetIP(code.InstructionCount())
 				}
@@ -281,10 +330,17 @@ func (env *c18Env) incremental(pieces []string, names []string, globalsEvery boo
 			prev = out[i-1].CodeLen
 		}
 		o.Grew = o.CodeLen > prev
-		o.SP, o.IP = -1, 0
+		o.SP, o.IP, o.Halt = -1, 0, -1
 		if v != nil {
 			st := v.VerifState()
-			o.SP, o.IP = st.SP, st.IP
+			o.SP, o.IP, o.Halt, o.Loaded = st.SP, st.IP, int(st.Halt), st.LoadedCode
+		}
+		if o.Class == "hang" {
+			out = append(out, o)
+			for len(out) < len(pieces) {
+				out = append(out, &c18Obs{Class: "hang", Err: "after an abandoned VM", SP: -1, Halt: -1})
+			}
+			return out
 		}
 		if globalsEvery || i == len(pieces)-1 {
 			o.Globals = env.globals(v, names)
@@ -353,25 +409,27 @@ func (env *c18Env) wholeEval(src string) *c18Obs {
 // ---------------------------------------------------------------- abstraction of statements
 
 type c18Stmt struct {
-	Src        string
-	Kind       string // gen | inserted kind
-	IsExpr     bool
-	Leaves     bool
-	Fails      bool
-	InFn       bool
-	AtomicFail bool   // inserted failing statement without any effect: left out of reference programs
-	OwnFail    bool   // a generated statement that fails on its own (leak unknown)
-	ImplRef    string // what an AtomicFail statement contributes to the reference program of the Impl trace (its declaration survives)
-	Need       int
-	Leak       int
-	Pre        int
-	Uses       []string
-	Asg        []string
-	VDecl      []string
-	CDecl      []string
-	FDefs      []string
-	Calls      []string
-	Node       *N
+	Src         string
+	Kind        string // gen | inserted kind
+	IsExpr      bool
+	Leaves      bool
+	Fails       bool
+	InFn        bool
+	AtomicFail  bool   // inserted failing statement without any effect: left out of reference programs
+	OwnFail     bool   // a generated statement that fails on its own (leak unknown)
+	NeutralLeak bool   // a rejected statement whose leaked instructions push nothing in total: the model's code does not grow
+	LeakUnknown bool   // a statement ended by its context: how many operands it leaves is a matter of timing
+	ImplRef     string // what an AtomicFail statement contributes to the reference program of the Impl trace (its declaration survives)
+	Need        int
+	Leak        int
+	Pre         int
+	Uses        []string
+	Asg         []string
+	VDecl       []string
+	CDecl       []string
+	FDefs       []string
+	Calls       []string
+	Node        *N
 }
 
 type c18Piece struct {
@@ -605,12 +663,16 @@ type c18History struct {
 	Names  []string
 	Host   []string // host-supplied globals the statements' attributes mention: defined before the first piece
 	Light  bool     // long directed history: compare classes/registers only, values at the end
+	Ctxs   string   // one context letter per piece (see incrementalCtx); "" = the whole history under one deadline
 }
 
 func (h *c18History) Text() string {
 	parts := make([]string, len(h.Pieces))
 	for i, p := range h.Pieces {
 		parts[i] = p.Src()
+	}
+	if h.Ctxs != "" {
+		return "contexts " + h.Ctxs + " (one letter per piece: b background, c cancellable, d cancelled by the piece, D already cancelled, e 25 ms deadline)\n" + strings.Join(parts, "\n----\n")
 	}
 	return strings.Join(parts, "\n----\n")
 }
@@ -655,6 +717,9 @@ func (h *c18History) request() (string, string, []*c18Stmt) {
 			}
 			if s.InFn {
 				fl += "n"
+			}
+			if s.NeutralLeak {
+				fl += "j"
 			}
 			if fl == "" {
 				fl = "-"
@@ -843,7 +908,7 @@ func (h *c18History) check(e *Env, env *c18Env, checkFrags bool) {
 	}
 	env.names = h.Names
 	tStart := time.Now()
-	real := env.incremental(srcs, h.Names, !h.Light)
+	real := env.incrementalCtx(srcs, h.Names, !h.Light, h.Ctxs)
 	if d := time.Since(tStart); d > 3*time.Second {
 		e.R.H("slow_histories", "incremental run took more than 3 s")
 		if os.Getenv("C18_ONLY") != "" {
@@ -854,7 +919,25 @@ func (h *c18History) check(e *Env, env *c18Env, checkFrags bool) {
 		}
 	}
 	hostReq, req, ids := h.request()
-	rep := strings.Split(e.O.Ask("C18", "histh", hostReq, req), "\t")
+	var rep []string
+	if h.Ctxs == "" {
+		rep = strings.Split(e.O.Ask("C18", "histh", hostReq, req), "\t")
+	} else {
+		// the model's context kinds: b background, c cancellable, d done before the run ends
+		mc := strings.NewReplacer("D", "d", "e", "d").Replace(h.Ctxs)
+		rep = strings.Split(e.O.Ask("C18", "histc", hostReq, mc, req), "\t")
+		if len(rep) == 9 {
+			// the halt flag each piece leaves behind (vm.halt through the verif hook)
+			for i, r := range real {
+				if i < len(rep[8]) && r.Halt >= 0 && string(rune('0'+r.Halt)) != rep[8][i:i+1] {
+					e.R.Mismatch(text, fmt.Sprintf("piece %d (context %c): vm.halt = %d after the piece", i, h.Ctxs[i], r.Halt),
+						"halt flags "+rep[8], "halt flag left behind by a piece's context vs Lean Impl model (HRepl)")
+					break
+				}
+			}
+			rep = rep[:8]
+		}
+	}
 	if len(rep) != 8 || rep[0] != "ok" {
 		e.R.Mismatch(text, "-", strings.Join(rep, " "), "oracle did not answer the history request")
 		return
@@ -934,7 +1017,7 @@ func (h *c18History) compareRegs(real []*c18Obs, pr *c18Pred, ids []*c18Stmt) st
 			if en.stale {
 				tainted = true
 			}
-			if ids[en.id-1].OwnFail {
+			if ids[en.id-1].OwnFail || ids[en.id-1].LeakUnknown {
 				unknownSP = true
 			}
 		}
@@ -1028,7 +1111,14 @@ func c18_runC18(e *Env) {
 		"through a named function; plus directed " +
 		"histories (for EVERY host-supplied global: rebind / read across 2-4 pieces with failing, rejected and unrelated pieces in between, " +
 		"rebinding twice, to nil/false, by multiple and compound assignment, by `import m as name`, from inside a function, read through an earlier function; every " +
-		"falsy value in a user's global; 1030 one-expression pieces; function-reads-global across pieces). After every piece every user global " +
+		"falsy value in a user's global; 1030 one-expression pieces; function-reads-global across pieces); " +
+		"CONTEXT histories (every piece run with its own context: background / cancellable / cancelled by the piece itself after its first statements / " +
+		"already cancelled / 25 ms deadline; pieces ended by their context followed by ordinary pieces under every context kind; vm.halt compared after every piece); " +
+		"COMPILE-ONLY-STATE histories (a rejected piece of each of ~20 syntactic kinds with its compile error late in the piece x an accepted piece of each of ~20 call/" +
+		"expression forms: the Call/Partial pattern of the real fragment against the Lean marks model, values/globals/stdout against the whole program); " +
+		"BINDING histories (random and enumerated sessions over integer globals and functions that read/write them: declarations in any piece, first calls in any later piece, " +
+		"top-level reads/writes in between: every piece's value, every global and the number of loaded code objects against the Lean generations model, values against its Spec " +
+		"and the real whole-program evaluation). After every piece every user global " +
 		"AND every host-supplied global (vm.Get) is compared with the whole-program evaluation. Distinct by the history text; non-trivial when the history has >= 2 pieces and the program " +
 		"uses >= 3 statement/expression forms beyond literals or nests >= 3 deep, and it gets past parsing"
 	setsIP, found := c18ReplSetsIP()
@@ -1218,13 +1308,26 @@ func c18_runC18(e *Env) {
 		}
 	}
 	c18Directed(e, env)
+	c18Contexts(e, env)
+	c18Marks(e, env)
+	c18Binding(e, env)
 	// a violation inside the guard (nothing known explains it) is the most telling replay: list those first
 	sort.SliceStable(e.R.SpecViolations, func(i, j int) bool {
 		a, b := e.R.SpecViolations[i], e.R.SpecViolations[j]
-		ka := a.Finding != "" || strings.Contains(a.Detail, "[outside C18_partial:")
-		kb := b.Finding != "" || strings.Contains(b.Detail, "[outside C18_partial:")
+		ka := a.Finding != "" || strings.Contains(a.Detail, "[outside ")
+		kb := b.Finding != "" || strings.Contains(b.Detail, "[outside ")
 		return !ka && kb
 	})
+	if os.Getenv("C18_DEBUG") != "" {
+		for _, m := range e.R.Mismatches {
+			fmt.Fprintf(os.Stderr, "MISMATCH %s | %s | %s\n%s\n\n", m.What, m.Go, m.Model, m.Case)
+		}
+		for _, v := range e.R.SpecViolations {
+			if v.Finding == "" {
+				fmt.Fprintf(os.Stderr, "SPEC %s\n%s\n\n", v.Detail, v.Case)
+			}
+		}
+	}
 	e.R.Note("whole-program reference evaluations cached: %d; fragment checks: %d distinct fragments", len(env.whole), len(env.frags))
 }
 
@@ -1304,7 +1407,9 @@ func c18HostWeave(r *RNG, p *N, pool []string) *N {
 		fdef := func() *N { return n("expr", ns("func", fname, n("params"), nBlock(n("return", nId(H))))) }
 		fcall := func() *N { return n("expr", nCall(nId(fname))) }
 		sname := fmt.Sprintf("hs%d", i)
-		sdef := func() *N { return n("expr", ns("func", sname, n("params"), nBlock(nAssign(H, "=", nInt(int64(60+r.Intn(9))))))) }
+		sdef := func() *N {
+			return n("expr", ns("func", sname, n("params"), nBlock(nAssign(H, "=", nInt(int64(60+r.Intn(9)))))))
+		}
 		scall := func() *N { return n("expr", nCall(nId(sname))) }
 		var seq []*N
 		switch r.Intn(7) {
